@@ -3,7 +3,7 @@
    The digest H is an argument; its only law is the 256-bit bound.  Collision-freedom is never
    assumed: "zero only for equal addresses" is stated as "zero iff the digests are equal". *)
 From Coq Require Import List NArith String Bool Permutation.
-From V Require Import lib.Strs lib.Dec lib.XorMetric lib.Sha256 gen.Consts model.Closeness proofs.Closeness proofs.ClosenessSched.
+From V Require Import lib.Strs lib.Dec lib.XorMetric lib.Sha256 gen.Consts model.Closeness proofs.Closeness proofs.ClosenessSched proofs.ClosenessStore.
 Import ListNotations.
 Open Scope N_scope.
 
@@ -225,6 +225,73 @@ Theorem store_distance_index_exact : forall H, (forall x, H x < 2 ^ 256) -> fora
   forall d, In d (records_by_distance H self_peer keys) <->
             exists k, In k keys /\ distance H (from_peer self_peer) (from_record_key k) = d.
 Proof. exact records_by_distance_spec. Qed.
+
+(* ---- the record store's admission / eviction decisions follow the integer distance over ALL held records *)
+
+(* Every history of (settled) puts, removes and restarts from the empty store: farthest_record is a held
+   key at maximal distance to ourselves, and it is None only when nothing is held -- straight after a
+   restart too. *)
+Theorem store_farthest_invariant : forall H self_peer max_records steps,
+  let d := fun k => distance H (from_peer self_peer) (from_record_key k) in
+  let '(held, far) := store_run (key_dist H self_peer) max_records steps in
+  match far with
+  | Some (k, dist_k) => In k held /\ dist_k = d k /\ forall k', In k' held -> d k' <= dist_k
+  | None => held = []
+  end.
+Proof.
+  intros H self_peer max_records steps d.
+  pose proof (store_run_ok (key_dist H self_peer) max_records steps) as Hok.
+  destruct (store_run (key_dist H self_peer) max_records steps) as [held far]. exact Hok.
+Qed.
+
+(* At capacity (in any state whose farthest_record is right, i.e. every reachable one): a record is refused
+   exactly when every held record is strictly nearer; otherwise exactly a farthest held record makes room. *)
+Theorem store_admission_exact : forall H self_peer max_records k held far,
+  let d := fun k => distance H (from_peer self_peer) (from_record_key k) in
+  far_ok (key_dist H self_peer) held far ->
+  max_records <= N.of_nat (List.length held) -> held <> [] ->
+  match store_prune (key_dist H self_peer) max_records k (held, far) with
+  | None => forall k', In k' held -> d k' < d k
+  | Some s' =>
+      exists fk, In fk held /\ (forall k', In k' held -> d k' <= d fk) /\ d k <= d fk /\
+                 fst s' = remove_key fk held
+  end.
+Proof. intros H self_peer max_records k held far d. exact (store_admission_exact_lemma (key_dist H self_peer) max_records k held far). Qed.
+
+Theorem store_history_agreement_sound : forall H self_peer max_records keys steps,
+  agree_store_hist H self_peer max_records keys steps = true ->
+  forall st pre_held pre_far res post_held post_far,
+    In (st, (pre_held, pre_far), res, (post_held, post_far)) steps ->
+    agree_store_step (key_dist H self_peer) max_records st pre_held pre_far res post_held post_far = true.
+Proof. exact agree_store_hist_sound. Qed.
+
+(* ---- SwarmDriver::get_closest_k_value_local_peers *)
+
+(* ourselves first, then the routing table in ascending distance to ourselves, cut at K; the close group and
+   the responsible-range reference peer are read off that order; the order in which the peers entered the
+   routing table never matters (no two of them at the same distance) *)
+Theorem closest_k_spec : forall H self_peer k_value table,
+  let d := fun p => distance H (from_peer self_peer) (from_peer p) in
+  sorted_by d (closest_k_value_local_peers H self_peer k_value table) /\
+  (1 <= k_value ->
+     closest_k_value_local_peers H self_peer k_value table =
+     self_peer :: firstn (N.to_nat (k_value - 1)) (sort_by d table)) /\
+  (CLOSE_GROUP_SIZE + 2 <= k_value ->
+     firstn (N.to_nat CLOSE_GROUP_SIZE) (closest_k_value_local_peers H self_peer k_value table) =
+       self_peer :: firstn (N.to_nat (CLOSE_GROUP_SIZE - 1)) (sort_by d table) /\
+     nth (N.to_nat (CLOSE_GROUP_SIZE + 1)) (closest_k_value_local_peers H self_peer k_value table) [] =
+       nth (N.to_nat CLOSE_GROUP_SIZE) (sort_by d table) []).
+Proof.
+  intros H self_peer k_value table d. split; [apply closest_k_sorted|].
+  split; [apply closest_k_head|apply closest_k_consumers].
+Qed.
+
+Theorem closest_k_insertion_order_irrelevant : forall H self_peer k_value table table',
+  let d := fun p => distance H (from_peer self_peer) (from_peer p) in
+  Permutation table table' -> NoDup table ->
+  (forall p q, In p table -> In q table -> d p = d q -> p = q) ->
+  closest_k_value_local_peers H self_peer k_value table = closest_k_value_local_peers H self_peer k_value table'.
+Proof. intros H self_peer k_value table table' d. exact (closest_k_perm_invariant H self_peer k_value table table'). Qed.
 
 (* ---- Node::calculate_get_closest_peers *)
 
